@@ -70,8 +70,15 @@ ElementClauses(e) ==
 
 (* ---- derived spaces: e.op, e.spc, e.dt, e.idx, e.form, e.out = [k |-> "ok"|"raise", view] ---- *)
 CaseOf(e) == DCase(e.op, e.dt, e.idx, e.form)
+\* e.pair: what failed between the derived object and the DIRECTLY constructed object SetSem!DerivedDesc describes
+\* (==, both ways, hash, set / dict membership, element membership); judged only where the derived object has the
+\* expected view (otherwise the view clause reports) and layer A defines the descriptor
+PairSet(e) == {e.pair[i] : i \in 1..Len(e.pair)} \ {"n/a"}
 DerivedClauses(e) ==
-  {<<"derived-" \o f \o ":" \o e.op, e.id, 0, 0>> : f \in DerivedDiff(e.spc, CaseOf(e), e.out)}
+  LET dd == DerivedDiff(e.spc, CaseOf(e), e.out) IN
+       {<<"derived-" \o f \o ":" \o e.op, e.id, 0, 0>> : f \in dd}
+  \cup (IF dd = {} /\ e.out.k = "ok" /\ DerivedDescDefined(e.spc, CaseOf(e))
+          THEN {<<"derived-vs-direct-" \o f \o ":" \o e.op, e.id, 0, 0>> : f \in PairSet(e)} ELSE {})
 \* layer C (DerivedSpaceImpl) against the observation
 DerivedDrift(e) ==
   LET m == ImplDerived(e.spc, CaseOf(e)) IN
@@ -86,6 +93,8 @@ ChainClauses(e) ==
   IN  IF x.k # "ok" THEN {}
       ELSE (IF e.out.k = "raise" THEN {<<"chain-raises", e.id, 0, 0>>}
             ELSE {<<"chain-" \o f, e.id, 0, 0>> : f \in ViewDiff(e.out.view, x.view, x.wclaim)})
+      \cup (IF e.out.k = "ok" /\ ViewDiff(e.out.view, x.view, x.wclaim) = {} /\ x.wclaim
+             THEN {<<"chain-vs-direct-" \o f, e.id, 0, 0>> : f \in PairSet(e)} ELSE {})
       \* the same chain from an independently constructed equal space gives an equal space
       \cup (IF e.fresh \notin {"equal", "n/a"} THEN {<<"chain-history-dependent:" \o e.fresh, e.id, 0, 0>>} ELSE {})
       \* element level: real / imaginary part and conjugate against NumPy on asarray, and the space they live in
@@ -114,6 +123,11 @@ HistClauses(e) ==
           p \in {p \in (1..n) \X (1..n) : T(p[1], p[2]) # HEq(stt, stt.objs[p[1]], stt.objs[p[2]])}}
   \cup (IF Len(e.eq) # n THEN {<<"history-object-count", e.id, 0, 0>>} ELSE {})
 
+(* ---- parts of a partition against the directly constructed set: e.k, e.pair ---- *)
+PartClauses(e) ==
+  IF e.k = "raise" THEN {<<"partition-" \o e.op \o "-raises", e.id, 0, 0>>}
+  ELSE {<<"partition-" \o e.op \o "-vs-direct-" \o f, e.id, 0, 0>> : f \in PairSet(e)}
+
 (* ---- element indexing commutes with asarray: e.out in equal | differ | raise-elem | raise-array | raise-both ---- *)
 IndexClauses(e) ==
   IF e.out \in {"equal", "raise-both"} THEN {} ELSE {<<"indexing-" \o e.out, e.id, 0, 0>>}
@@ -125,6 +139,7 @@ Clauses(e) ==
     [] e.ev = "index" -> IndexClauses(e)
     [] e.ev = "chain" -> ChainClauses(e)
     [] e.ev = "hist" -> HistClauses(e)
+    [] e.ev = "part" -> PartClauses(e)
 
 \* family features of a pair of objects (they name the cell in the signature of a finding); none is left on the
 \* current tree, the classes of the two objects identify the family
